@@ -125,6 +125,65 @@ def rand_script(rng, n, malformed=False):
     return s
 
 
+NUMERIC_HEADS = ("take", "skip", "takelast", "skiplast", "bufcount", "elementat")
+
+
+def wide_variant(rng, variants, focus=None):
+    """An operator variant with parameters from a WIDE range (thresholds, capacities and other magic numbers
+    of an implementation lie outside the small exhaustive ranges)."""
+    # no products over long scripts: the model's integers are unbounded, the harness' are i64 (documented
+    # assumption "no overflow")
+    variants = [v for v in variants if not (v[0] in ("scan", "reduce") and "mul" in v[1:])]
+    pool = [v for v in variants if not focus or v[0] in focus] or variants
+    v = list(rng.choice(pool))
+    if v[0] in NUMERIC_HEADS:
+        v[1] = str(rng.choice([0, 1, 2, 3, 5, 7, 8, 9, 12, 16, 17, 33]))
+    elif v[0] == "contains":
+        v[1] = str(rng.randint(-2, 13))
+    return v
+
+
+def wide_script(rng, n, alpha_hi=13):
+    """Long scripts over a wide alphabet: many distinct values, runs of repeats, late repeats of early values."""
+    xs = []
+    for _ in range(n):
+        r = rng.random()
+        if xs and r < 0.2:
+            xs.append(xs[-1])
+        elif xs and r < 0.4:
+            xs.append(rng.choice(xs))
+        else:
+            xs.append(rng.randint(-2, alpha_hi))
+    return xs
+
+
+def wide_cases(rng, variants, n, focus=None):
+    """Depth-1 and depth-2 cases with wide parameters, long scripts (10..48 items) and a wide alphabet."""
+    out = []
+    for _ in range(n):
+        opv = wide_variant(rng, variants, focus)
+        xs = wide_script(rng, rng.choice([10, 14, 20, 33, 48]))
+        term = rng.choice(TERMS)
+        inner = None
+        if rng.random() < 0.3:
+            inner = wide_variant(rng, variants, None)
+        flavor = "threads" if rng.random() < 0.25 else "local"
+        if rng.random() < 0.5:
+            src = ["hot", "0"]
+            pipe = opv + [inner + [src] if inner else src]
+            c = Case("pipe", flavor, [("pipe", [pipe])], [["sub"]] + hot_events(0, xs, term),
+                     {"kind": "wide", "op": opv[0]})
+        else:
+            if term == "c":
+                src = ["iter"] + [str(x) for x in xs]
+            else:
+                src = ["create"] + [sx.N(x) for x in xs] + ([term] if term is not None else [])
+            pipe = opv + [inner + [src] if inner else src]
+            c = Case("pipe", flavor, [("pipe", [pipe])], [["sub"]], {"kind": "wide", "op": opv[0]})
+        out.append(c)
+    return out
+
+
 def rand_chain(rng, variants, depth, src):
     p = src
     for _ in range(depth):
